@@ -264,6 +264,7 @@ func normalisingSwitches(w *World) []switchTable {
 func runC08(w *World, r *Report) {
 	ctxs := w.ctxTable()
 	phaseTables(w, r, "C08")
+	c08TypeMappingSiblings(w, r)
 	// ---- 1. alias normalisation ----
 	const ruleAlias = "C08/alias-normalisation"
 	sws := normalisingSwitches(w)
